@@ -6,7 +6,7 @@ import subprocess
 import threading
 import time
 
-PROTO = ("BEGIN ", "END ", "DETAIL ", "SAMPLE ", "SCHED ", "BATCH-DONE", "BUDGET-EXCEEDED", "TERMINATE", "SIM-STUCK", "SIM-DEADLOCK", "ERROR ")
+PROTO = ("BEGIN ", "END ", "DETAIL ", "SAMPLE ", "SCHED ", "BATCH-DONE", "BUDGET-EXCEEDED", "TERMINATE", "SIM-STUCK", "SIM-DEADLOCK", "WALL-TIMEOUT", "ERROR ")
 
 _ENV = dict(os.environ)
 _ENV.setdefault("ASAN_SYMBOLIZER_PATH", "/usr/bin/llvm-symbolizer-14")
@@ -158,7 +158,7 @@ def run_worker(cmd, on_rec, stdin_text=None, timeout=None):
             cur.sched = line.split(" ", 2)[2] if line.count(" ") >= 2 else ""
         elif line.startswith("BATCH-DONE"):
             done = True
-        elif line.startswith(("BUDGET-EXCEEDED", "TERMINATE", "SIM-STUCK", "SIM-DEADLOCK")):
+        elif line.startswith(("BUDGET-EXCEEDED", "TERMINATE", "SIM-STUCK", "SIM-DEADLOCK", "WALL-TIMEOUT")):
             proto_abort = line
             if cur is not None:
                 cur.noise.append(line)
@@ -181,13 +181,15 @@ def run_worker(cmd, on_rec, stdin_text=None, timeout=None):
         pa = None
         forced = None
         if proto_abort:
-            label = re.sub(r"[^A-Za-z0-9_.:-]+", "_", proto_abort.split("op=", 1)[-1].split(" |")[0].strip())[:60] if "op=" in proto_abort else ""
+            label = re.sub(r"[^A-Za-z0-9_.:-]+", "_", re.sub(r"\d+", "N", proto_abort.split("op=", 1)[-1].split(" |")[0].strip()))[:60] if "op=" in proto_abort else ""
             if proto_abort.startswith("BUDGET-EXCEEDED"):
                 forced = "hang:edge-budget@" + label
             elif proto_abort.startswith("TERMINATE"):
                 forced = "terminate@" + label
             elif proto_abort.startswith("SIM-DEADLOCK"):
                 forced = "deadlock"
+            elif proto_abort.startswith("WALL-TIMEOUT run"):
+                forced = "hang:wall-clock"
             elif proto_abort.startswith("SIM-STUCK") or proto_abort == "WALL-TIMEOUT":
                 forced = "infra:stuck"
         if forced:
